@@ -384,6 +384,17 @@ func (repo *GoGitRepo) FetchRefs(remote string, prefixes ...string) (string, err
 		refSpecs[i] = config.RefSpec(fmt.Sprintf("refs/%s/*:refs/remotes/%s/%s/*", prefix, remote, prefix))
 	}
 
+	// go-git cannot update a reference that only lives in packed-refs (after "git pack-refs" or
+	// "git gc"): checking the previous value, it creates an empty loose file, reports "reference
+	// has changed concurrently" and leaves that file behind, which git then sees as a broken
+	// reference. Make the remote-tracking references we are about to update loose first.
+	for _, prefix := range prefixes {
+		err := repo.unpackRefs(fmt.Sprintf("refs/remotes/%s/%s/", remote, prefix))
+		if err != nil {
+			return "", err
+		}
+	}
+
 	buf := bytes.NewBuffer(nil)
 
 	err := repo.r.Fetch(&gogit.FetchOptions{
@@ -399,6 +410,25 @@ func (repo *GoGitRepo) FetchRefs(remote string, prefixes ...string) (string, err
 	}
 
 	return buf.String(), nil
+}
+
+// unpackRefs rewrites as loose files the references under refPrefix that have no loose file.
+func (repo *GoGitRepo) unpackRefs(refPrefix string) error {
+	refIter, err := repo.r.References()
+	if err != nil {
+		return err
+	}
+
+	return refIter.ForEach(func(ref *plumbing.Reference) error {
+		name := ref.Name().String()
+		if ref.Type() != plumbing.HashReference || !strings.HasPrefix(name, refPrefix) {
+			return nil
+		}
+		if _, err := os.Stat(filepath.Join(repo.path, filepath.FromSlash(name))); err == nil {
+			return nil
+		}
+		return repo.r.Storer.SetReference(ref)
+	})
 }
 
 // PushRefs push git refs matching a directory prefix to a remote
